@@ -15,9 +15,13 @@ arithmetic of `Part.large`); the expression of the tree as found, `global_size /
 zero when `0 < total < ranks` — see `largePinned` / `targetPinned` below.
 
 Parameters that the code leaves to the environment are explicit arguments: the iteration order
-of `rebalance`'s `std::unordered_map to_send` (`ords`), the order in which messages are executed
-(`sched`, a permutation of message positions), the destinations drawn by `global_shuffle`, the
-arrangement produced by `std::shuffle`.  Theorems quantify over all of them.
+of `rebalance`'s `std::unordered_map to_send` (`ords`), the order in which pending inserts are
+executed (`sched`, a permutation of message positions), the destinations drawn by
+`global_shuffle`, the arrangement produced by `std::shuffle`, and — for `rebalance` and
+`global_shuffle`, whose sends start right after a barrier while slower ranks may still be inside
+it — the full interleaving of local actions and message executions (`evs`, machine `Net`): a vector
+shipped by a fast rank can be appended to a slow rank's local bag BEFORE that rank pops / swaps
+out, and is then popped / re-sent by it.  Theorems quantify over all of them.
 
 Core Lean only (the driver links this file).
 -/
@@ -98,39 +102,92 @@ def sendKeys (tot ranks pre sz r : Nat) : List Nat :=
 def localPop {α : Type} (l : List α) (n : Nat) : Option (List α × List α) :=
   if n ≤ l.length then some (l.take (l.length - n), l.drop (l.length - n)) else none
 
-/-- `for (kv : to_send) async_insert(local_pop(kv.second), kv.first)` with iteration order `ord` -/
-def ship {α : Type} (cnt : Nat → Nat) : List α → List Nat → Option (List α × List (Msg α))
-  | l, [] => some (l, [])
-  | l, t :: ts =>
-    match localPop l (cnt t) with
+/-- the sends of one rank in `global_shuffle`: item `k` of the swapped-out local bag goes to `ds[k]` -/
+def shuffleMsgs {α : Type} (l : List α) (ds : List Nat) : Option (List (Msg α)) :=
+  if ds.length = l.length then some (List.zipWith (fun x d => { dest := d, items := [x] }) l ds) else none
+
+/-! #### the interleaving machine
+
+After the barrier inside `rebalance` / `global_shuffle` every rank performs its local actions
+(`async_insert(local_pop(n), t)` for each key of `to_send`; or swap the local bag out and send every
+item to a drawn rank) while messages of ranks that were faster are already being executed on it. -/
+
+/-- a local action a rank still has to perform -/
+inductive Act where
+  | pop (t n : Nat)    -- `async_insert(local_pop(n), t)`
+  | shuf               -- `std::swap(old, m_local_bag)`; one `async(distrib(r), send_item, item)` per item
+
+def Act.size : Act → Nat
+  | .pop _ n => n
+  | .shuf => 0
+
+def Act.goesTo (r : Nat) : Act → Bool
+  | .pop t _ => t == r
+  | .shuf => false
+
+def Act.isPop : Act → Bool
+  | .pop _ _ => true
+  | .shuf => false
+
+inductive Ev where
+  | act (s : Nat) (ds : List Nat)   -- rank `s` performs its next action (`ds`: the ranks it draws, for `shuf`)
+  | recv (k : Nat)                  -- the in-flight message number `k` is executed on its destination
+
+structure Net (α : Type) where
+  bags : List (List α)
+  todo : List (List Act)
+  flight : List (Msg α)
+
+def Net.step {α : Type} (st : Net α) : Ev → Option (Net α)
+  | .act s ds =>
+    match st.todo[s]?, st.bags[s]? with
+    | some (.pop t n :: rest), some l =>
+      (localPop l n).map (fun p =>
+        { bags := st.bags.set s p.1, todo := st.todo.set s rest, flight := st.flight ++ [{ dest := t, items := p.2 }] })
+    | some (.shuf :: rest), some l =>
+      (shuffleMsgs l ds).map (fun ms =>
+        { bags := st.bags.set s [], todo := st.todo.set s rest, flight := st.flight ++ ms })
+    | _, _ => none
+  | .recv k =>
+    match st.flight[k]? with
+    | some m =>
+      if m.dest < st.bags.length then
+        some { st with bags := st.bags.modify m.dest (· ++ m.items), flight := st.flight.eraseIdx k }
+      else none
     | none => none
-    | some (kept, popped) => (ship cnt kept ts).map (fun p => (p.1, { dest := t, items := popped } :: p.2))
 
-/-- rank `r`'s part of `rebalance`: (what it keeps, what it ships) -/
-def rebalanceRank {α : Type} (tot ranks pre r : Nat) (l : List α) (ord : List Nat) :
-    Option (List α × List (Msg α)) :=
-  if traps tot ranks pre l.length then none
-  else if ord.isPerm (sendKeys tot ranks pre l.length r) then ship (sendCount tot ranks pre l.length r) l ord
+def Net.run {α : Type} (st : Net α) : List Ev → Option (Net α)
+  | [] => some st
+  | e :: es => (st.step e).bind (fun st' => st'.run es)
+
+/-- every rank has performed all its actions and every message has been executed (what the closing
+barrier waits for) -/
+def Net.done {α : Type} (st : Net α) : Bool := st.todo.all (·.isEmpty) && st.flight.isEmpty
+
+/-- rank `r`'s actions in `rebalance`, for the iteration order `ord` of its `to_send` -/
+def rebalanceActs (tot ranks pre sz r : Nat) (ord : List Nat) : List Act :=
+  ord.map (fun t => Act.pop t (sendCount tot ranks pre sz r t))
+
+/-- `ords[r]` is a possible iteration order of rank `r`'s `to_send` and no target computation traps -/
+def rebalanceOk {α : Type} (b : Bag α) (ords : List (List Nat)) : Bool :=
+  (List.range b.ranks).all (fun r =>
+    !(traps (total b) b.ranks (prefixOf (sizes b) r) (b.bags.getD r []).length) &&
+    (ords.getD r []).isPerm (sendKeys (total b) b.ranks (prefixOf (sizes b) r) (b.bags.getD r []).length r))
+
+def rebalanceInit {α : Type} (b : Bag α) (ords : List (List Nat)) : Net α :=
+  { bags := b.bags,
+    todo := (List.range b.ranks).map (fun r =>
+      rebalanceActs (total b) b.ranks (prefixOf (sizes b) r) (b.bags.getD r []).length r (ords.getD r [])),
+    flight := [] }
+
+/-- `rebalance()`; `ords[r]` = iteration order of rank `r`'s `to_send`, `evs` = interleaving of the
+ranks' pops and of the executions of the shipped vectors -/
+def rebalance {α : Type} (b : Bag α) (ords : List (List Nat)) (evs : List Ev) : Option (Bag α) :=
+  if rebalanceOk b ords then
+    match (rebalanceInit b ords).run evs with
+    | some st => if st.done then some { b with bags := st.bags } else none
+    | none => none
   else none
-
-def allSome {γ : Type} : List (Option γ) → Option (List γ)
-  | [] => some []
-  | none :: _ => none
-  | some x :: xs => (allSome xs).map (x :: ·)
-
-/-- every rank's (kept, shipped) -/
-def rebalancePlan {α : Type} (b : Bag α) (ords : List (List Nat)) : Option (List (List α × List (Msg α))) :=
-  allSome ((List.range b.ranks).map (fun r =>
-    rebalanceRank (total b) b.ranks (prefixOf (sizes b) r) r (b.bags.getD r []) (ords.getD r [])))
-
-def planMsgs {α : Type} (plan : List (List α × List (Msg α))) : List (Msg α) := plan.flatMap (·.2)
-
-/-- `rebalance()`; `ords[r]` = iteration order of rank `r`'s `to_send`, `sched` = execution order
-of the shipped vectors -/
-def rebalance {α : Type} (b : Bag α) (ords : List (List Nat)) (sched : List Nat) : Option (Bag α) :=
-  match rebalancePlan b ords with
-  | none => none
-  | some plan => deliverSched { b with bags := plan.map (·.1) } (planMsgs plan) sched
 
 /-! the block-size expression of bag.ipp as found in the tree (D4) -/
 def largePinned (tot ranks : Nat) : Nat := tot / ranks + (if tot / ranks > 0 then 1 else 0)
@@ -146,15 +203,12 @@ def localShuffleAt {α : Type} [BEq α] (b : Bag α) (r : Nat) (new : List α) :
   | none => none
   | some old => if new.isPerm old then some { b with bags := b.bags.set r new } else none
 
-/-- the sends of one rank in `global_shuffle`: item `k` of the old local bag goes to `ds[k]` -/
-def shuffleMsgs {α : Type} (l : List α) (ds : List Nat) : Option (List (Msg α)) :=
-  if ds.length = l.length then some (List.zipWith (fun x d => { dest := d, items := [x] }) l ds) else none
-
-/-- `global_shuffle`: every rank swaps its local bag out and sends each item to a drawn rank -/
-def globalShuffle {α : Type} (b : Bag α) (dests : List (List Nat)) (sched : List Nat) : Option (Bag α) :=
-  match allSome ((List.range b.bags.length).map (fun r => shuffleMsgs (b.bags.getD r []) (dests.getD r []))) with
+/-- `global_shuffle`: every rank swaps its local bag out and sends each item to a drawn rank;
+`evs` = interleaving of the swap-outs (with the drawn ranks) and of the executions of the sends -/
+def globalShuffle {α : Type} (b : Bag α) (evs : List Ev) : Option (Bag α) :=
+  match ({ bags := b.bags, todo := b.bags.map (fun _ => [Act.shuf]), flight := [] } : Net α).run evs with
+  | some st => if st.done then some { b with bags := st.bags } else none
   | none => none
-  | some mss => deliverSched { b with bags := b.bags.map (fun _ => []) } mss.flatten sched
 
 /-- `clear()` -/
 def clear {α : Type} (b : Bag α) : Bag α := { b with bags := b.bags.map (fun _ => []) }
@@ -181,9 +235,9 @@ inductive Op (α : Type) where
   | insTo (src dest : Nat) (x : α)       -- async_insert(x, dest)
   | insVec (src dest : Nat) (xs : List α)
   | barrier (sched : List Nat)           -- pending inserts execute, in the order sched
-  | rebalance (ords : List (List Nat)) (sched : List Nat)
+  | rebalance (ords : List (List Nat)) (evs : List Ev)
   | lshuffle (r : Nat) (new : List α)
-  | gshuffle (dests : List (List Nat)) (sched : List Nat)
+  | gshuffle (evs : List Ev)
   | clear
 
 /-- state: the bag and the inserts issued but not yet executed -/
@@ -196,9 +250,9 @@ def step {α : Type} [BEq α] (s : St α) : Op α → Option (St α)
   | .insTo _ d x => some { s with pending := s.pending ++ [insertTo d x] }
   | .insVec _ d xs => some { s with pending := s.pending ++ [insertVec d xs] }
   | .barrier sched => (deliverSched s.bag s.pending sched).map (fun b => { bag := b, pending := [] })
-  | .rebalance ords sched => if s.pending.isEmpty then (rebalance s.bag ords sched).map (fun b => { s with bag := b }) else none
+  | .rebalance ords evs => if s.pending.isEmpty then (rebalance s.bag ords evs).map (fun b => { s with bag := b }) else none
   | .lshuffle r new => if s.pending.isEmpty then (localShuffleAt s.bag r new).map (fun b => { s with bag := b }) else none
-  | .gshuffle dests sched => if s.pending.isEmpty then (globalShuffle s.bag dests sched).map (fun b => { s with bag := b }) else none
+  | .gshuffle evs => if s.pending.isEmpty then (globalShuffle s.bag evs).map (fun b => { s with bag := b }) else none
   | .clear => if s.pending.isEmpty then some { s with bag := clear s.bag } else none
 
 /-- items an operation adds to the bag -/
